@@ -128,9 +128,9 @@ def check_npa(ctx, rule_prefix="R-SDP"):
                 roles = (_role_of(N(q.elts[0]), pctx), _role_of(N(q.elts[1]), pctx), _role_of(rt, pctx), _role_of(ct, pctx))
             if roles[0] not in ("A", "0", "?") or roles[1] not in ("B", "0", "?") or roles[2] not in ("A", "?") or roles[3] not in ("B", "?"):
                 bad.append((n, f"index roles (question_A, question_B, row block, column block) = {roles}"))
-    ctx.ob("R-ENUM", f, "assemblage[x, y][Alice block, Bob block] everywhere", not bad if n_sub >= 8 else None,
+    ctx.ob("R-ENUM", f, "assemblage[x, y][Alice block, Bob block] everywhere", not bad if n_sub >= 6 else None,
            f"{n_sub} subscripts index (x, y) then (Alice's answer block, Bob's answer block)" if not bad else
-           f"`{unparse(bad[0][0])[:80]}`: {bad[0][1]}", bad[0][0] if bad else None, required=n_sub >= 8)
+           f"`{unparse(bad[0][0])[:80]}`: {bad[0][1]}", bad[0][0] if bad else None, required=n_sub >= 6)
 
     # --- sums over answer blocks of the assemblage range over ALL answers of the player whose block index is summed --------
     #     (row block = Alice's answer, column block = Bob's answer; structural, independent of local names)
@@ -192,6 +192,32 @@ def check_npa(ctx, rule_prefix="R-SDP"):
                 out.append(unparse(it))
         return tuple(sorted(out))
     scopes = [_scope_iters(c) for c in mc]
+    # the same family written as a list of marginals compared with its first element:
+    #     ms = [S(q) for q in range(R)] ; constraints.extend(ms[0] == v for v in ms[1:])     ==     for q in range(1, R): S(0) == S(q)
+    for call in walk_no_nested(f.node):
+        if not (isinstance(call, ast.Call) and isinstance(call.func, ast.Attribute) and call.func.attr in ("extend",) and len(call.args) == 1
+                and isinstance(call.args[0], (ast.GeneratorExp, ast.ListComp)) and len(call.args[0].generators) == 1 and not call.args[0].generators[0].ifs):
+            continue
+        g = call.args[0]
+        gv, git = g.generators[0].target, g.generators[0].iter
+        e = g.elt
+        if not (isinstance(e, ast.Compare) and len(e.ops) == 1 and isinstance(e.ops[0], ast.Eq) and isinstance(gv, ast.Name)):
+            continue
+        sides = [e.left, e.comparators[0]]
+        var_side = [x for x in sides if isinstance(x, ast.Name) and x.id == gv.id]
+        ref_side = [x for x in sides if isinstance(x, ast.Subscript) and isinstance(x.value, ast.Name) and isinstance(x.slice, ast.Constant) and x.slice.value == 0]
+        if not (var_side and ref_side and isinstance(git, ast.Subscript) and isinstance(git.value, ast.Name) and git.value.id == ref_side[0].value.id
+                and isinstance(git.slice, ast.Slice) and isinstance(git.slice.lower, ast.Constant) and git.slice.lower.value == 1 and git.slice.upper is None and git.slice.step is None):
+            continue
+        lname = git.value.id
+        ldefs = [n for n in walk_no_nested(f.node) if isinstance(n, ast.Assign) and len(n.targets) == 1 and isinstance(n.targets[0], ast.Name) and n.targets[0].id == lname]
+        if len(ldefs) != 1 or not (isinstance(ldefs[0].value, ast.ListComp) and len(ldefs[0].value.generators) == 1 and not ldefs[0].value.generators[0].ifs):
+            continue
+        lit = ldefs[0].value.generators[0].iter
+        if not (isinstance(lit, ast.Call) and isinstance(lit.func, ast.Name) and lit.func.id == "range" and len(lit.args) == 1):
+            continue
+        enclosing = [unparse(lp.iter) for lp in walk_no_nested(f.node) if isinstance(lp, ast.For) and any(x is call for x in ast.walk(lp)) and any(x is ldefs[0] for x in ast.walk(lp))]
+        scopes.append(tuple(sorted(enclosing + [f"range(1, {unparse(lit.args[0])})"])))
     okb = ("range(1, a_in)", "range(b_in)", "range(b_out)") in [tuple(sorted(s)) for s in scopes]
     oka = ("range(1, b_in)", "range(a_in)", "range(a_out)") in [tuple(sorted(s)) for s in scopes]
     ctx.ob(rule_prefix, f, "Bob's marginal independent of Alice's question (all y, b, x>0)", okb, "present" if okb else f"scopes found: {scopes}")
